@@ -552,6 +552,31 @@ def run_config(cfg, pts):
                               'msg': 'len %d for 1 point' % len(r), 'how': 'single'})
             else:
                 judge(i, r[0], 'single')
+        # history: every ordered pair of single-point calls on a fresh object (1-D tables): the
+        # result for the second point must not depend on where the first one was (cached bracket
+        # indices and coefficients)
+        failed = set(f['i'] for f in fails)
+        if len(grids) == 1 and api == 'interp' and not failed:
+            ok = [i for i in range(N) if not must_raise[i] and not skip[i]]
+            for i in ok:
+                for j in ok:
+                    if i == j:
+                        continue
+                    d2 = fresh()
+                    r1 = d2.call(P[[i]])
+                    if isinstance(r1, _Raised):
+                        continue
+                    r = d2.call(P[[j]])
+                    evals += 1
+                    if isinstance(r, _Raised) or len(r) != 1:
+                        judge(j, r if isinstance(r, _Raised) else r, 'pair_history')
+                    else:
+                        judge(j, r[0], 'pair_history')
+                    if fails:
+                        fails[-1]['prev'] = i      # the replay needs the predecessor
+                        break
+                if fails:
+                    break
         # history: one batched call on the object that has served single calls
         failed = set(f['i'] for f in fails)
         idx = [i for i in range(N) if not must_raise[i] and not skip[i] and i not in failed]
@@ -686,6 +711,8 @@ def make_violation(cfg, pts, f):
     p = [float(x) for x in pts[i]]
     if _fails_like(cfgc, [p], f):
         seq = [p]
+    elif f.get('prev') is not None:
+        seq = [[float(x) for x in pts[f['prev']]], p]
     else:
         seq = [list(map(float, q)) for q in pts[:i + 1]]
     desc = describe(cfgc, p, f) if len(seq) == 1 else 'history:' + '+'.join(sorted(set(
